@@ -440,6 +440,23 @@ INVALID = [
     (["-j", "x", "hit", "."], "flag"), (["-m", "-3", "hit", "."], "flag"), (["--pre-glob", "{", "--pre", "cat", "hit", "."], "glob"),
     (["--type-add", "bad", "hit", "."], "type"), (["-A", "x", "hit"], "flag"), (["--colors", "zzz", "hit"], "flag"),
     (["-f", "no_such_pattern_file", "."], "file"), ([], "flag"),
+    # an invalid value is an error whatever else is (not) given: the flag it modifies may be absent
+    (["--pre-glob", "{", "-e", "hit", "."], "glob"), (["--pre-glob", "[z-a]", "-e", "hit", "."], "glob"),
+    (["--pre-glob", "a{b", "--files", "."], "glob"), (["--pre", "cat", "--pre-glob", "a{b", "-e", "hit", "."], "glob"),
+    (["--iglob", "{", "-e", "hit", "."], "glob"), (["--iglob", "[z-a]", "--files", "."], "glob"),
+    (["-g", "a{b", "--files", "."], "glob"), (["-g", "**{", "-e", "hit", "."], "glob"),
+    (["--type-add", "nocolon", "-e", "hit", "."], "type"), (["--type-add", "x:include:nosuchtype", "-e", "hit", "."], "type"),
+    (["--type-add", "bad name:*.x", "--files", "."], "type"), (["-T", "nosuchtype", "-e", "hit", "."], "type"),
+    (["--type-clear", "rust", "-t", "rust", "-e", "hit", "."], "type"),
+    (["-E", "utf-99", "-e", "hit", "."], "encoding"), (["-E", "", "-e", "hit", "."], "encoding"),
+    (["--max-filesize", "5X", "-e", "hit", "."], "flag"), (["--max-depth", "-1", "-e", "hit", "."], "flag"),
+    (["--dfa-size-limit", "big", "-e", "hit", "."], "flag"), (["--regex-size-limit", "1Q", "-e", "hit", "."], "flag"),
+    (["--engine", "nosuch", "-e", "hit", "."], "flag"), (["--color", "sometimes", "-e", "hit", "."], "flag"),
+    (["--colors", "match:fg:nocolor", "-e", "hit", "."], "flag"), (["--hyperlink-format", "{nosuchvar}", "-e", "hit", "."], "flag"),
+    (["--sortr", "weight", "-e", "hit", "."], "flag"),
+    (["--ignore-file", "x", "--max-columns", "wide", "-e", "hit", "."], "flag"),
+    (["-r", "$1", "-e", "hit(", "."], "regex"), (["-F", "-e", "hit", "-g", "{", "."], "glob"),
+    (["--pre-glob", "*.txt", "--pre-glob", "{", "-z", "-e", "hit", "."], "glob"),
 ]
 
 
@@ -771,6 +788,12 @@ def corpus():
              sort=None, implicit=False, no_messages=False, follow=False, max0=False, pre=True),
         dict(entries=[dict(name="apf", kind="prefail", lines=["zzz"])], mode="list", threads=1,
              sort=None, implicit=False, no_messages=False, follow=False, max0=False, pre=True),
+        dict(entries=[dict(name="apf", kind="prefail", lines=["zzz"]), f("b", ["hit"])], mode="std", threads=1, sort=None,
+             implicit=False, no_messages=True, follow=False, max0=False, pre=True),
+        dict(entries=[dict(name="apf", kind="prefail", lines=["hit"]), f("b", ["zzz"])], mode="count", threads=3, sort=None,
+             implicit=False, no_messages=True, follow=False, max0=False, pre=True),
+        dict(entries=[dict(name="m", kind="missing"), f("b", ["zzz"])], mode="std", threads=1, sort=None,
+             implicit=False, no_messages=True, follow=False, max0=False),
         # quiet is not quit_after_match: -q --stats searches everything, still exits 0 on a match despite an error
         dict(entries=[f("a", ["hit"]), dict(name="u", kind="unreadable", lines=["hit"])], mode="quiet", threads=1,
              sort=None, implicit=False, no_messages=False, follow=False, max0=False, stats=True),
